@@ -35,7 +35,7 @@ var propSpecs = map[string]PropSpec{
 	"C04": {ID: "C04", Level: "proof", Patterns: modelPkgs},
 	"C05": {ID: "C05", Level: "other", Patterns: modelPkgs,
 		Explanation: "Partial: the goroutine-per-cell execution inside every generated Run is decided by sequential contracts plus the disjoint-footprint argument for fork/join parallelism: every write of cell i's goroutine body goes to cells of states[i,.] / outputs[i,.,.] or to memory allocated by that body (SMT-discharged frame obligations), everything captured from Run is read-only in the body, inputs and parameters are never written, and Run receives once per spawned goroutine before returning (structural join check). Under these no two goroutines have conflicting accesses, so every interleaving equals the sequential cell-by-cell order; the step from disjoint footprints to race freedom is a standard meta-theorem that is not mechanised (A-SEQ). The ow-sim half (goroutine per model, asynchronous writer) is not applicable: package main of cmd/ow-sim cannot be loaded or run here and the claim is about interleavings of a protocol.",
-		NotCovered: []string{"goroutine-per-model execution and the asynchronous writer in cmd/ow-sim", "the Go memory model beyond absence of conflicting accesses", "GR4J, Lag, Storage, RatingCurvePartition wrappers (custom state packing / table parameters): not under the generic wrapper schema"}},
+		NotCovered: []string{"goroutine-per-model execution and the asynchronous writer in cmd/ow-sim", "the Go memory model beyond absence of conflicting accesses"}},
 	"C06": {ID: "C06", Level: "proof", Patterns: modelPkgs},
 	"C14": {ID: "C14", Level: "proof", Patterns: modelPkgs},
 	"C10": {ID: "C10", Level: "proof", Patterns: modelPkgs},
